@@ -307,7 +307,8 @@ def attr_item(ps: int, ki: int, oi: int, x: int, v: int) -> bool:
         return finish(False, True)
     cls = fam.D
     keys = key_sets(cls)
-    kk = pick(keys, ki)
+    nsl = max(1, hlib.NPARTS // len(cells))  # further split by key slice
+    kk = pick(keys[(hlib.PART // len(cells))::nsl], ki)
     op = pick(AOPS, oi)
     if position is None or kk is None or op is None:
         return finish(False, True)
@@ -473,7 +474,7 @@ def plan(tier):
     t = 300 if tier == "quick" else 1500
     return [
         {"fn": "family", "nparts": len(PARTS), "timeout": t},
-        {"fn": "attr_item", "nparts": len(attr_cells()), "timeout": t},
+        {"fn": "attr_item", "nparts": 2 * len(attr_cells()), "timeout": t},
     ]
 
 
